@@ -36,7 +36,8 @@ RULE = ("cases = (family, aliasing variant, size n): families are loops of k~n i
         "mixtures of 2-6 such statements over 1-4 collections with for/while/closure drivers) on a collection of ~n "
         "elements; variants = unaliased, `y := x`, stored in another container, 3 holders, alias taken and released "
         "before the loop, alias of an inner row, every holder mutates (thorough also: the loop mutates the later-made "
-        "reference); sizes n, 2n, 4n (thorough: 1000*2^k up to 128000). distinct = distinct (family, variant, n) triple "
+        "reference); sizes n, 2n, 4n with n = 2000 (quick: box/3-holders/released variants at n and 4n only; thorough: "
+        "1000*2^k up to 128000). distinct = distinct (family, variant, n) triple "
         "(mixtures: the generated program text and n); non-trivial = the loop ran to completion AND the sharing "
         "precondition (Rc strong count on every container node of the mutated path after the setup) was observed to be "
         "exactly the one the variant is meant to establish AND the payload probe measured a buffer of >= 8 KiB. "
@@ -51,9 +52,10 @@ ASSUMPTIONS = [
     "fuel/timeout/crash of a workload is inconclusive; sizes are bounded (quick n <= 8000, thorough n <= 128000, controls n <= 4000 quick / 8000 thorough)",
 ]
 PLAN = {
-    "quick": {"sizes": [2000, 4000, 8000], "control_sizes": [1000, 4000], "mixtures": 32, "mix_bases": [1000], "group_weight": 6, "shards": 16},
+    "quick": {"sizes": [2000, 4000, 8000], "control_sizes": [1000, 4000], "mixtures": 32, "mix_bases": [1000], "group_weight": 6, "shards": 20,
+              "mid_size_only_for": ["un", "al1", "inner", "allmut"]},
     "thorough": {"sizes": [1000, 2000, 4000, 8000, 16000, 32000, 64000, 128000], "control_sizes": [1000, 2000, 4000, 8000],
-                 "mixtures": 320, "mix_bases": [1000, 2000, 4000, 8000, 16000], "group_weight": 60, "shards": 16},
+                 "mixtures": 320, "mix_bases": [1000, 2000, 4000, 8000, 16000], "group_weight": 60, "shards": 20},
 }
 REG = dict(level="exploration", min_nontrivial=600, min_nontrivial_thorough=2500, max_inconc=0.02,
            technique="allocation-scaling runtime monitor: exact counting allocator around one loop statement per (family, aliasing variant, size), measured payload threshold, Rc strong-count precondition, copying control programs as sensitivity self-check",
@@ -124,21 +126,22 @@ fam("list_set", "list1", LIST, FOR + "x[i] = i + 1", holders_mutate=FOR + "(x[i]
 fam("list_set_neg", "list1", LIST, FOR + "x[(-1) - i] = i")
 fam("list_opidx_add", "list1", LIST, FOR + "x[i] += 3")
 fam("list_opidx_max", "list1", LIST, FOR + "x[i] max= 7")
-fam("list_opidx_user", "list1", LIST + ["__g := \\a, b -> a * 2 + b"], FOR + "x[i] __g= i")
-fam("list_while_set", "list1", LIST + ["__i := 0"], "while (__i < @N) (x[__i] = 5; __i += 1)")
+fam("list_opidx_user", "list1b", LIST + ["__g := \\a, b -> a * 2 + b"], FOR + "x[i] __g= i")
+fam("list_while_set", "list1b", LIST + ["__i := 0"], "while (__i < @N) (x[__i] = 5; __i += 1)")
 # the loop itself takes an alias four times (and drops the previous one): one copy per alias is allowed
-fam("list_realias4", "list1", LIST + ["__c := null"], FOR + "(if (i % @R == 0) __c = x; x[i] = i + 1)", dyn_holders=4)
+fam("list_realias4", "list1b", LIST + ["__c := null"], FOR + "(if (i % @R == 0) __c = x; x[i] = i + 1)", dyn_holders=4)
 fam("ctl_list_set", "list1", LIST + ["__c := null"], FOR + "(__c = x; x[i] = i + 1)", control=True)
+fam("ctl_list_opidx", "list1b", LIST + ["__c := null"], FOR + "(__c = x; x[i] += 3)", control=True)
 
 fam("list_append", "list2", LIST, FOR + "x append= i", holders_mutate=FOR + "(x append= 1; __y1 append= 2; __y2 append= 3)")
 fam("list_concat1", "list2", LIST, FOR + "x ++= [i]")
 fam("list_concat2", "list2", LIST, FOR + "x ++= [i, i + 1]")
-fam("list_pop", "list2", LIST, FOR + "pop x")
-fam("list_remove_last", "list2", LIST, FOR + "remove x[-1]")
-fam("list_remove_tail", "list2", ["x := list(0 til @N2)"], FOR + "remove x[-2:]")
+fam("list_pop", "list3", LIST, FOR + "pop x")
+fam("list_remove_last", "list3", LIST, FOR + "remove x[-1]")
+fam("list_remove_tail", "list3", ["x := list(0 til @N2)"], FOR + "remove x[-2:]")
 fam("list_push_pop", "list2", LIST, FOR + "(x append= i; pop x)")
 fam("ctl_list_append", "list2", LIST + ["__c := null"], FOR + "(__c = x; x append= i)", control=True)
-fam("ctl_list_pop", "list2", LIST + ["__c := null"], FOR + "(__c = x; pop x)", control=True)
+fam("ctl_list_pop", "list3", LIST + ["__c := null"], FOR + "(__c = x; pop x)", control=True)
 
 # --- nested rows: many small rows (payload = the outer buffer)
 ROW_INNER = ("__r := x[0]", 1)
@@ -213,12 +216,12 @@ fam("consume_roundtrip", "flow", LIST, FOR + "(t := consume x; t append= i; x = 
 fam("consume_expr", "flow", LIST, FOR + "x = (consume x) append i")
 fam("consume_call", "flow", LIST + ["__g := \\l, v -> (consume l) append v"], FOR + "x = __g(consume x, i)")
 fam("consume_set", "flow", LIST, FOR + "(t := consume x; t[i] = 3; x = consume t)")
-fam("closure_set", "flow", LIST + ["__f := \\i -> (x[i] = i + 1)"], FOR + "__f(i)")
-fam("closure_append", "flow", LIST + ["__f := \\v -> (x append= v)"], FOR + "__f(i)")
-fam("closure_opidx", "flow", LIST + ["__f := \\i -> (x[i] += 1)"], FOR + "__f(i)")
-fam("closure_pop", "flow", LIST + ["__f := \\ -> pop x"], FOR + "__f()")
+fam("closure_set", "closure", LIST + ["__f := \\i -> (x[i] = i + 1)"], FOR + "__f(i)")
+fam("closure_append", "closure", LIST + ["__f := \\v -> (x append= v)"], FOR + "__f(i)")
+fam("closure_opidx", "closure", LIST + ["__f := \\i -> (x[i] += 1)"], FOR + "__f(i)")
+fam("closure_pop", "closure", LIST + ["__f := \\ -> pop x"], FOR + "__f()")
 fam("ctl_roundtrip_noconsume", "flow", LIST, FOR + "(t := x; t append= i; x = t)", control=True)
-fam("ctl_closure_set", "flow", LIST + ["__c := null", "__f := \\i -> (__c = x; x[i] = i + 1)"], FOR + "__f(i)", control=True)
+fam("ctl_closure_set", "closure", LIST + ["__c := null", "__f := \\i -> (__c = x; x[i] = i + 1)"], FOR + "__f(i)", control=True)
 
 BY_NAME = {f.name: f for f in FAMILIES}
 GROUPS = []
@@ -581,6 +584,10 @@ def run_group(sh, w, gname, ctx, cache):
         sizes = ctx.plan["control_sizes"] if f.control else ctx.plan["sizes"]
         for (vname, extra, H, expect, loop) in variants_for(f, ctx.tier):
             for n in sizes:
+                if ctx.plan.get("mid_size_only_for") and len(sizes) == 3 and n == sizes[1] \
+                        and vname not in ctx.plan["mid_size_only_for"]:
+                    sh.count("skipped:mid-size-for-secondary-variant")
+                    continue
                 n = n // f.div
                 if f.max_n and n > f.max_n:
                     sh.count("skipped:size-cap")
